@@ -155,10 +155,19 @@ func watchUnits(res *common.Result) bool {
 		maxLen, bound = 1, 0
 	case "watchev-sched-t":
 		maxLen, bound = 2, 0
+	case "watchev-overlap-q", "watchev-overlap-t":
+		// a slow task: every run of the task is parked inside its command, so the watcher picks up the next
+		// event while the run for the previous one is still in flight (runs overlap; branching at the quiescent
+		// points only: every order in which the overlapping runs complete)
+		maxLen, bound = 2, 0
+		if *common.Unit == "watchev-overlap-t" {
+			maxLen = 4
+		}
 	default:
 		return false
 	}
-	theSeam.park = false
+	overlap := strings.HasPrefix(*common.Unit, "watchev-overlap")
+	theSeam.park = overlap
 	res.Bound = bound
 	paths := []string{"f1", "f2"}
 	var alphabet []evT
@@ -192,7 +201,7 @@ func watchUnits(res *common.Result) bool {
 		var key, desc string
 		var vx *vrt.Execution
 		distinct := map[string]bool{}
-		st := vrt.Explore(vrt.ExploreConfig{Bound: b, Prune: true, QuiescentOnly: canonical, Deadline: common.Deadline()}, watchBody(&c), func(x *vrt.Execution) bool {
+		st := vrt.Explore(vrt.ExploreConfig{Bound: b, Prune: true, QuiescentOnly: canonical || overlap, Deadline: common.Deadline()}, watchBody(&c), func(x *vrt.Execution) bool {
 			if x.Outcome == vrt.Diverged {
 				fmt.Fprintln(os.Stderr, "replay divergence", x.PanicVal)
 				os.Exit(2)
@@ -237,6 +246,10 @@ func watchUnits(res *common.Result) bool {
 		alphabet = []evT{{"write", "f1"}, {"remove", "f1"}}
 		repr = [][]string{{}, {"write"}, {"remove", "chmod"}}
 	}
+	if overlap {
+		alphabet = []evT{{"write", "f1"}, {"write", "f2"}}
+		repr = [][]string{{}}
+	}
 	var rec func(cur []evT)
 	rec = func(cur []evT) {
 		if stop {
@@ -251,6 +264,9 @@ func watchUnits(res *common.Result) bool {
 			b = bound + 1
 		}
 		for si, s := range subs {
+			if overlap && len(cur) < 2 {
+				continue // a single event cannot overlap with another one
+			}
 			if !canonical && len(cur) >= 2 && si > 0 && *common.Tier != "thorough" {
 				continue // quick: two-event schedules only with everything subscribed
 			}
